@@ -10,7 +10,8 @@ import (
 )
 
 // c18Variants: four source variants of one package (same import path).
-// 0: accepted, long output; 1: accepted, short output; 2: rejected (missing); 3: rejected (conflict).
+// 0: accepted, long output; 1: accepted, short output; 2: rejected (missing); 3: rejected (conflict);
+// 4: accepted, short output extended by one injector (variant 1 is a byte prefix of it).
 func c18Variants(id string) []*Program {
 	var vs []*Program
 	{ // long
@@ -52,6 +53,15 @@ func c18Variants(id string) []*Program {
 		b.Inj("Init", a, false, false, nil, refs(f1, f2)...)
 		vs = append(vs, b.P)
 	}
+	{ // accepted: the short variant plus one more injector at the end, so that the short
+		// variant's output is a proper prefix of this one's
+		b := NewPB(id, "app")
+		t := b.Carrier(0, "Short")
+		f := b.Func(0, "NewShort", t, false, false)
+		b.Inj("Init", t, false, false, nil, ItemRef(f.ID))
+		b.Inj("InitZ", PtrTo(t), false, false, nil, ItemRef(b.Func(0, "NewShortPtr", PtrTo(t), false, false).ID))
+		vs = append(vs, b.P)
+	}
 	return vs
 }
 
@@ -74,12 +84,12 @@ func (h histStep) String() string {
 func genHistory(e *Env, i, length int) []histStep {
 	r := Rng(e.Seed, "c18", i)
 	var hs []histStep
-	hs = append(hs, histStep{Op: "switch", Var: i % 4})
-	damages := []string{"stale", "noncompiling", "truncated", "garbage"}
+	hs = append(hs, histStep{Op: "switch", Var: i % 5})
+	damages := []string{"stale", "noncompiling", "truncated", "garbage", "tail", "longer-variant"}
 	for len(hs) < length {
 		switch x := r.Intn(12); {
 		case x < 3:
-			hs = append(hs, histStep{Op: "switch", Var: r.Intn(4)})
+			hs = append(hs, histStep{Op: "switch", Var: r.Intn(5)})
 		case x < 7:
 			hs = append(hs, histStep{Op: "gen"})
 			if r.Intn(2) == 0 {
@@ -96,7 +106,7 @@ func genHistory(e *Env, i, length int) []histStep {
 		}
 	}
 	// every history ends with a successful regeneration and a diff
-	hs = append(hs, histStep{Op: "switch", Var: (i / 4) % 2}, histStep{Op: "gen"}, histStep{Op: "gen"}, histStep{Op: "diff"})
+	hs = append(hs, histStep{Op: "switch", Var: []int{0, 1, 4, 1}[(i/4)%4]}, histStep{Op: "gen"}, histStep{Op: "gen"}, histStep{Op: "diff"})
 	return hs
 }
 
@@ -109,7 +119,7 @@ func CheckC18(e *Env) int {
 	// fresh-checkout references
 	variants := c18Variants("hist")
 	ref := make([][]byte, len(variants))
-	for v := 0; v < 2; v++ {
+	for _, v := range []int{0, 1, 4} {
 		root := filepath.Join(e.Scratch, "c18ref", fmt.Sprint(v))
 		os.MkdirAll(root, 0o755)
 		prepareModule(e, root, []*Program{variants[v]})
@@ -156,7 +166,7 @@ func CheckC18(e *Env) int {
 			if violated {
 				return
 			}
-			accepted := cur == 0 || cur == 1
+			accepted := cur == 0 || cur == 1 || cur == 4
 			fstate := "absent"
 			switch {
 			case file == nil:
@@ -207,6 +217,16 @@ func CheckC18(e *Env) int {
 					b = src[:idx+len("package app\n")]
 				case "garbage":
 					b = []byte(garbagePrior)
+				case "tail":
+					// the up-to-date content followed by extra bytes
+					base := ref[1]
+					if cur == 0 || cur == 1 || cur == 4 {
+						base = ref[cur]
+					}
+					b = append(append([]byte(nil), base...), []byte("\nfunc leftoverTail() {}\n")...)
+				case "longer-variant":
+					// the output of the variant that extends the short one
+					b = ref[4]
 				}
 				os.WriteFile(out, b, 0o644)
 				file = b
